@@ -205,6 +205,25 @@ def run(rep, tier, rng):
     rep.sample({"type": files[0]["code"], "calls": files[0]["calls"], "reader_ops": reader_ops(len(files[0]["specs"]), 0)})
     rep.cov["oracle"] = {"files": len(files), "reader_histories": len(rcases), "failing": nfail}
     path_pairs(rep, files[:(40 if tier == "thorough" else 12)])
+    # ---- the complete reader reports the number of index entries as well, whatever the table holds (here: fewer rows
+    # than shapes, after calls whose row the table refused — the situation of known finding F10 of C08)
+    import C08
+    ccases, cmeta = [], []
+    for code in (shapes.ALL_CODES if tier == "thorough" else rng.sample(shapes.ALL_CODES, 5)):
+        a = shapes.gen_ctor(rng, code, "small", True, 1, 2)
+        for kinds in ([0, 0, 0], [0, 1, 0], [1, 0], [0, 2, 1, 0], [1]):
+            ccases.append(C08.pair_case([(k, a) for k in kinds], [("count",)]))
+            cmeta.append(kinds)
+    cimpl = stages.correspondence(rep, "pair_count", dev, ccases, "pair(shape_count of the complete reader)", vm_sample=20)
+    for c, kinds, r in zip(ccases, cmeta, cimpl):
+        if r in ([-4], [-2], [2], [-5]):
+            continue
+        res = C08.parse_pair(r, len(kinds), [("count",)])
+        if "ops" in res and res["ops"][0]["count"] != res["counts"][1]:
+            rep.violation({"kind": "oracle", "what": "the complete reader reports %r shapes, the .shx holds %d entries (the .dbf %d rows)"
+                           % (res["ops"][0]["count"], res["counts"][1], res["counts"][2]), "case_kind": "pair", "case": c})
+            break
+    rep.cov["complete_reader_count_cases"] = len(ccases)
     rep.assumptions += ["path-created .shp/.shx pairs go through BufWriter<File>: covered by the harness's path mode (files "
                         "re-read from disk and compared with the in-memory bytes), not by the theorem"]
 
